@@ -89,7 +89,7 @@ func runCmdCtx(parent context.Context, argv []string, timeout time.Duration) (st
 func firstWord(out string) string {
 	for _, l := range strings.Split(out, "\n") {
 		l = strings.TrimSpace(l)
-		if l == "" || strings.HasPrefix(l, ";") {
+		if l == "" || strings.HasPrefix(l, ";") || strings.HasPrefix(l, "WARNING") {
 			continue
 		}
 		return l
@@ -137,12 +137,27 @@ func (s *Solver) Solve(name string, query string, wantModel bool) SolveResult {
 	}
 	ctx, cancel := context.WithCancel(context.Background())
 	ch := make(chan answer, len(solvers))
+	// The two configurations that decide most obligations within a second (cvc5, z3 with E-matching only) start at
+	// once; the other two join the race only if no answer has arrived after 1.5 s. Easy queries then cost two
+	// processes instead of four, which matters because all cores are busy with other queries.
 	for _, sv := range solvers {
-		go func(sv SolverCfg) {
+		delay := time.Duration(0)
+		if sv.Name != "cvc5-1.0" && sv.Name != "z3-5.1-ematch" {
+			delay = 1500 * time.Millisecond
+		}
+		go func(sv SolverCfg, delay time.Duration) {
+			if delay > 0 {
+				select {
+				case <-ctx.Done():
+					ch <- answer{sv, "", "", 0}
+					return
+				case <-time.After(delay):
+				}
+			}
 			t0 := time.Now()
 			out, _ := runCmdCtx(ctx, sv.Cmd(file, s.Timeout), time.Duration(s.Timeout+2)*time.Second)
 			ch <- answer{sv, out, firstWord(out), time.Since(t0).Seconds()}
-		}(sv)
+		}(sv, delay)
 	}
 	var outputs []string
 	var satBy *SolverCfg
